@@ -260,7 +260,10 @@ func runC15(c *Ctx) {
 				rec(v)
 				return out
 			}
-			isZeroBig := func(v ssa.Value) bool { _, ok := v.(*ssa.Alloc); return ok && strings.Contains(v.Type().String(), "big.Int") }
+			isZeroBig := func(v ssa.Value) bool {
+				_, ok := v.(*ssa.Alloc)
+				return ok && strings.Contains(v.Type().String(), "big.Int")
+			}
 			okPay := true
 			for _, s := range expand(ma[0]) {
 				if s == ssa.Value(clamp) || isZeroBig(s) {
